@@ -18,102 +18,7 @@ def run(ctx):
     g = Graph(aut)
     idx = index()
 
-    # ------------------------------------------------------------------ R16.1
-    r = ctx.rule("R16.1", "attribute typestate over every path of the tag states: start_attr -> finish_attr_name -> (start_token_part .. finish_attr_value)? -> finish_attr, a tag is emitted only with no attribute open, and mark_as_self_closing only on the `>` of self_closing_start_tag_state", "E-SM may-typestate", floor=30)
-    lx = impl_methods(idx, "Lexer", "StateMachineActions")
-    for need in ("start_attr", "finish_attr_name", "finish_attr_value", "finish_attr", "emit_tag", "mark_as_self_closing"):
-        if need not in lx:
-            raise EngineError("R16.1 anchor: Lexer::" + need)
-    # (state, value_part_started)
-    start = {(NO, False)}
-    facts = {n: set() for n in g.nodes}
-    for n in g.text_nodes:
-        facts[n] |= start
-    viol = {}
-
-    def step(states, e):
-        cur = set(states)
-        for a in e.names():
-            nxt = set()
-            for (s, vs) in cur:
-                if a == "start_attr":
-                    if s != NO:
-                        viol.setdefault((id(e.leaf), "start_attr"), (e, f"start_attr while an attribute is still open ({s}): the previous attribute is dropped"))
-                    nxt.add((NAME, False))
-                elif a == "finish_attr_name":
-                    if s != NAME:
-                        viol.setdefault((id(e.leaf), a), (e, f"finish_attr_name in protocol state {s}"))
-                    nxt.add((NAMED, False))
-                elif a == "start_token_part":
-                    nxt.add((s, True) if s == NAMED else (s, vs))
-                elif a == "finish_attr_value":
-                    if s != NAMED or not vs:
-                        viol.setdefault((id(e.leaf), a), (e, f"finish_attr_value in protocol state {s}{'' if vs else ' without start_token_part marking the value start'}"))
-                    nxt.add((VALUED, False))
-                elif a == "finish_attr":
-                    if s not in (NAMED, VALUED):
-                        viol.setdefault((id(e.leaf), a), (e, f"finish_attr in protocol state {s} (name not finished)"))
-                    nxt.add((NO, False))
-                elif a == "emit_tag":
-                    if s != NO:
-                        viol.setdefault((id(e.leaf), a), (e, f"the tag is emitted while an attribute is still open ({s}): that attribute is missing from attributes()/get_attribute()"))
-                    nxt.add((NO, False))
-                elif a in ("create_start_tag", "create_end_tag"):
-                    nxt.add((NO, False))
-                else:
-                    nxt.add((s, vs))
-            cur = nxt
-        return cur
-    changed = True
-    while changed:
-        changed = False
-        for e in g.edges():
-            if e.dst is None or not facts[e.src]:
-                continue
-            out = step(facts[e.src], e)
-            if e.dst in g.text_nodes:
-                out = {(NO, False)}
-            if not out <= facts[e.dst]:
-                facts[e.dst] |= out
-                changed = True
-    n_attr_edges = 0
-    for e in g.edges():
-        nm = e.names()
-        if any(a in ("start_attr", "finish_attr_name", "finish_attr_value", "finish_attr", "emit_tag") for a in nm) and e.leaf is not None:
-            n_attr_edges += 1
-            r.inst("%s|%s|%s" % (e.state, fmt_mask(e.c0), ">".join(nm)), sample={"leaf": e.describe(), "protocol_states_before": sorted(s for s, _ in facts[e.src])})
-    seen = set()
-    for (lid, a), (e, msg) in viol.items():
-        key = "%s|%s|%s" % (e.state, fmt_mask(e.c0), a)
-        if key in seen:
-            continue
-        seen.add(key)
-        r.violate(key, msg + ": " + e.describe(), shared.state_loc(e.state))
-    # end of a tag with an open attribute at EOF is fine (raw emitted without token). Self closing:
-    for e in g.edges():
-        if e.leaf is not None and "mark_as_self_closing" in e.names():
-            key = "%s|%s|mark_as_self_closing" % (e.state, fmt_mask(e.c0))
-            r.inst(key)
-            if e.state != "self_closing_start_tag_state" or e.c0 != (1 << ord(">")) or "emit_tag" not in e.names():
-                r.violate(key, "mark_as_self_closing outside the `/>` ending of a tag: " + e.describe(), shared.state_loc(e.state))
-    # a `/` followed by `>` always marks
-    sc = [e for e in g.out["self_closing_start_tag_state"] if e.c0 == (1 << ord(">"))]
-    r.inst("self_closing|gt")
-    if not sc or not all("mark_as_self_closing" in e.names() for e in sc):
-        r.violate("self_closing|gt", "`/>` does not mark the tag as self-closing", shared.state_loc("self_closing_start_tag_state"))
-    # action semantics the typestate relies on (read from the Lexer impl): ranges are [token_part_start, pos)
-    f = mir.fn("Lexer::finish_attr_value[StateMachineActions]")
-    f2 = mir.fn("Lexer::finish_attr_name[StateMachineActions]")
-    f3 = mir.fn("Lexer::start_token_part[StateMachineActions]")
-    r.inst("impl|ranges")
-    for fn_, what in ((f, "value"), (f2, "name")):
-        rng = [st for b in fn_.blocks for st in b["stmts"] if st["k"] == "assign" and st["rv"]["k"] == "agg" and st["rv"]["name"].endswith("Range")]
-        ok = any(fn_.describe_operand(st["rv"]["ops"][0]) == "self.token_part_start" and "self.next_pos" in fn_.describe_operand(st["rv"]["ops"][1]) and "Sub" in fn_.describe_operand(st["rv"]["ops"][1]) for st in rng)
-        if not ok:
-            r.violate("impl|" + what, f"Lexer::{fn_.name} no longer records the range [token_part_start, next_pos - 1) for the attribute {what}", fn_.loc())
-    wr = [(bi, st) for f_, bi, st in mir.field_writes("Lexer", "token_part_start") if f_ is f3]
-    if len(wr) != 1 or "pos" not in f3.describe_operand(wr[0][1]["rv"]["o"]):
-        r.violate("impl|start_token_part", "Lexer::start_token_part no longer records pos()", f3.loc())
+    rule_attr_typestate(ctx, idx, aut, g, mir)
 
     rule_attr_lookup(ctx, mir)
 
@@ -271,4 +176,104 @@ def rule_attr_lookup(ctx, mir, rid="R16.2"):
     r.inst("remove_attribute|all-duplicates", sample={"bulk": bulk, "single_removals": len(single), "in_loop": len(in_loop)})
     if not bulk and (not single or len(in_loop) != len(single)):
         r.violate("remove_attribute|all-duplicates", "remove_attribute removes at most one matching attribute (no bulk removal and the removal is not inside a loop): a duplicate of the name stays visible to has_attribute/get_attribute and in the output", ra.loc())
+
+
+
+def rule_attr_typestate(ctx, idx, aut, g, mir, rid="R16.1"):
+    # ------------------------------------------------------------------ R16.1
+    r = ctx.rule(rid, "attribute typestate over every path of the tag states: start_attr -> finish_attr_name -> (start_token_part .. finish_attr_value)? -> finish_attr, a tag is emitted only with no attribute open, and mark_as_self_closing only on the `>` of self_closing_start_tag_state", "E-SM may-typestate", floor=30)
+    lx = impl_methods(idx, "Lexer", "StateMachineActions")
+    for need in ("start_attr", "finish_attr_name", "finish_attr_value", "finish_attr", "emit_tag", "mark_as_self_closing"):
+        if need not in lx:
+            raise EngineError("R16.1 anchor: Lexer::" + need)
+    # (state, value_part_started)
+    start = {(NO, False)}
+    facts = {n: set() for n in g.nodes}
+    for n in g.text_nodes:
+        facts[n] |= start
+    viol = {}
+
+    def step(states, e):
+        cur = set(states)
+        for a in e.names():
+            nxt = set()
+            for (s, vs) in cur:
+                if a == "start_attr":
+                    if s != NO:
+                        viol.setdefault((id(e.leaf), "start_attr"), (e, f"start_attr while an attribute is still open ({s}): the previous attribute is dropped"))
+                    nxt.add((NAME, False))
+                elif a == "finish_attr_name":
+                    if s != NAME:
+                        viol.setdefault((id(e.leaf), a), (e, f"finish_attr_name in protocol state {s}"))
+                    nxt.add((NAMED, False))
+                elif a == "start_token_part":
+                    nxt.add((s, True) if s == NAMED else (s, vs))
+                elif a == "finish_attr_value":
+                    if s != NAMED or not vs:
+                        viol.setdefault((id(e.leaf), a), (e, f"finish_attr_value in protocol state {s}{'' if vs else ' without start_token_part marking the value start'}"))
+                    nxt.add((VALUED, False))
+                elif a == "finish_attr":
+                    if s not in (NAMED, VALUED):
+                        viol.setdefault((id(e.leaf), a), (e, f"finish_attr in protocol state {s} (name not finished)"))
+                    nxt.add((NO, False))
+                elif a == "emit_tag":
+                    if s != NO:
+                        viol.setdefault((id(e.leaf), a), (e, f"the tag is emitted while an attribute is still open ({s}): that attribute is missing from attributes()/get_attribute()"))
+                    nxt.add((NO, False))
+                elif a in ("create_start_tag", "create_end_tag"):
+                    nxt.add((NO, False))
+                else:
+                    nxt.add((s, vs))
+            cur = nxt
+        return cur
+    changed = True
+    while changed:
+        changed = False
+        for e in g.edges():
+            if e.dst is None or not facts[e.src]:
+                continue
+            out = step(facts[e.src], e)
+            if e.dst in g.text_nodes:
+                out = {(NO, False)}
+            if not out <= facts[e.dst]:
+                facts[e.dst] |= out
+                changed = True
+    n_attr_edges = 0
+    for e in g.edges():
+        nm = e.names()
+        if any(a in ("start_attr", "finish_attr_name", "finish_attr_value", "finish_attr", "emit_tag") for a in nm) and e.leaf is not None:
+            n_attr_edges += 1
+            r.inst("%s|%s|%s" % (e.state, fmt_mask(e.c0), ">".join(nm)), sample={"leaf": e.describe(), "protocol_states_before": sorted(s for s, _ in facts[e.src])})
+    seen = set()
+    for (lid, a), (e, msg) in viol.items():
+        key = "%s|%s|%s" % (e.state, fmt_mask(e.c0), a)
+        if key in seen:
+            continue
+        seen.add(key)
+        r.violate(key, msg + ": " + e.describe(), shared.state_loc(e.state))
+    # end of a tag with an open attribute at EOF is fine (raw emitted without token). Self closing:
+    for e in g.edges():
+        if e.leaf is not None and "mark_as_self_closing" in e.names():
+            key = "%s|%s|mark_as_self_closing" % (e.state, fmt_mask(e.c0))
+            r.inst(key)
+            if e.state != "self_closing_start_tag_state" or e.c0 != (1 << ord(">")) or "emit_tag" not in e.names():
+                r.violate(key, "mark_as_self_closing outside the `/>` ending of a tag: " + e.describe(), shared.state_loc(e.state))
+    # a `/` followed by `>` always marks
+    sc = [e for e in g.out["self_closing_start_tag_state"] if e.c0 == (1 << ord(">"))]
+    r.inst("self_closing|gt")
+    if not sc or not all("mark_as_self_closing" in e.names() for e in sc):
+        r.violate("self_closing|gt", "`/>` does not mark the tag as self-closing", shared.state_loc("self_closing_start_tag_state"))
+    # action semantics the typestate relies on (read from the Lexer impl): ranges are [token_part_start, pos)
+    f = mir.fn("Lexer::finish_attr_value[StateMachineActions]")
+    f2 = mir.fn("Lexer::finish_attr_name[StateMachineActions]")
+    f3 = mir.fn("Lexer::start_token_part[StateMachineActions]")
+    r.inst("impl|ranges")
+    for fn_, what in ((f, "value"), (f2, "name")):
+        rng = [st for b in fn_.blocks for st in b["stmts"] if st["k"] == "assign" and st["rv"]["k"] == "agg" and st["rv"]["name"].endswith("Range")]
+        ok = any(fn_.describe_operand(st["rv"]["ops"][0]) == "self.token_part_start" and "self.next_pos" in fn_.describe_operand(st["rv"]["ops"][1]) and "Sub" in fn_.describe_operand(st["rv"]["ops"][1]) for st in rng)
+        if not ok:
+            r.violate("impl|" + what, f"Lexer::{fn_.name} no longer records the range [token_part_start, next_pos - 1) for the attribute {what}", fn_.loc())
+    wr = [(bi, st) for f_, bi, st in mir.field_writes("Lexer", "token_part_start") if f_ is f3]
+    if len(wr) != 1 or "pos" not in f3.describe_operand(wr[0][1]["rv"]["o"]):
+        r.violate("impl|start_token_part", "Lexer::start_token_part no longer records pos()", f3.loc())
 
